@@ -810,7 +810,8 @@ def _extern_module(E, name):
                                        TypeVar=Builtin('TypeVar', lambda *a, **k: Extern('TypeVar')),
                                        TYPE_CHECKING=False))
     if name == 'logging':
-        return ExternModule('logging', dict(getLogger=Builtin('getLogger', lambda *a: BlackHole())))
+        return ExternModule('logging', dict(getLogger=Builtin('getLogger', lambda *a: BlackHole()), CRITICAL=50, ERROR=40, WARNING=30,
+                                            INFO=20, DEBUG=10, NOTSET=0))
     if name == 'contextlib':
         return ExternModule('contextlib', {})
     if name == 'asyncio' or name.startswith('asyncio.'):
@@ -2106,6 +2107,16 @@ def value_attr(E, obj, name):
     if isinstance(obj, SMap):
         return smap_attr(E, obj, name)
     if isinstance(obj, BlackHole):
+        # logging calls are no-ops (their arguments were evaluated by the caller); QUERIES about the logging configuration
+        # are answered arbitrarily - the configuration belongs to the environment, every level must be safe
+        if name in ('isEnabledFor', 'hasHandlers'):
+            return Builtin('logger.' + name, lambda *a, **k: E.fresh_bool('logging.' + name))
+        if name == 'getEffectiveLevel':
+            return Builtin('logger.getEffectiveLevel', lambda: E.fresh_int('logging.level', 0, 50))
+        if name in ('level',):
+            return E.fresh_int('logging.level', 0, 50)
+        if name in ('disabled', 'propagate'):
+            return E.fresh_bool('logging.' + name)
         return Builtin('noop', lambda *a, **k: None)
     if isinstance(obj, ENG.PyFunc):
         if name == '__name__':
